@@ -108,3 +108,24 @@ def run(ctx, rep):
             rep.ob('R15.d', MM + 'get_oldest_segments', 'first segment only', first, pu[0].where(), None if first else 'the candidate is no longer the first (oldest) segment')
         src = canon(hb.pexpr_operand(ds[0].args[1]), 0, 1)
         rep.ob('R15.d', MM + 'handle_oldest_segments', 'candidates from get_oldest_segments', 'get_oldest_segments' in src, ds[0].where(), 'delete_segments(topic, %s)' % src[:80])
+
+    # ------------------------------------------------------------ R15.e the limit that is enforced is the resolved one
+    rep.rule('R15.e', 'the limit a topic stores is the resolved one (ServerDefault replaced by the configured default, too-small limits rejected) at every site that writes it: create, update and load', floor=3, analysis='A9 provenance forms')
+    import forms as forms_
+    T = 'server::streaming::topics::topic::Topic'
+    want = {'<server::streaming::topics::storage::FileTopicStorage as server::streaming::storage::TopicStorage>::load': 'Topic::get_max_topic_size(state.max_topic_size, topic.config)',
+            'server::streaming::streams::stream::Stream::update_topic': 'Topic::get_max_topic_size(max_topic_size, self.config)'}
+    seen = set()
+    for fn, b_, bb_, ln, form in forms_.field_assignments(ctx, T, 'max_topic_size'):
+        seen.add(fn)
+        exp = want.get(fn)
+        ok = exp is not None and form == exp
+        rep.ob('R15.e', fn, 'max_topic_size = resolved limit', ok, '%s:%s' % (b_.file, ln), None if ok else
+               ('Topic.max_topic_size is assigned `%s`; the resolved limit is `%s` (an unresolved ServerDefault is never full, so the configured default limit stops being enforced)' % (form, exp) if exp else
+                'Topic.max_topic_size is written by an unconfirmed function (`%s`)' % form))
+    for fn in want:
+        if fn not in seen:
+            rep.ob('R15.e', fn, 'max_topic_size = resolved limit', False, None, 'the assignment of the resolved limit expected in this function is missing')
+    forms_.check_aggregates(ctx, rep, 'R15.e', {T + '::create': {T: {'max_topic_size': 're:^(Topic::get_max_topic_size\\(max_topic_size, config\\)|max_topic_size)$'}}})
+    # create receives the resolved value from Stream::create_topic
+    forms_.check_call_args(ctx, rep, 'R15.e', {'server::streaming::streams::stream::Stream::create_topic': {'Topic::create': ['re:.*, Topic::get_max_topic_size\\(max_topic_size, self\\.config\\), replication_factor$']}}, skip_self=False, cd=1)
